@@ -94,8 +94,21 @@ def oracle_auto(case, v, info):
 
 def gen(rng, n_manual, n_auto):
     cases = []
-    for _ in range(n_manual):
-        cases.append(ctl.gen_scenario(rng, max_lines=rng.choice([3, 5, 7])))
+    for j in range(n_manual):
+        c = ctl.gen_scenario(rng, max_lines=rng.choice([3, 5, 7]))
+        if j % 4 == 0:
+            # targeted class: the feeder breaker is held open by a long fault in its own (root) section, an attached
+            # support-mode microgrid recloses after the sectioning time and energises the feeder, then a second line fails
+            c = ctl.gen_scenario(rng, max_lines=rng.choice([3, 5]), nfeed=1)
+            c["spec"]["mg"] = {"host": [0, rng.randrange(len(c["spec"]["feeders"][0]["parent"]))], "mode": rng.choice(["full", "limited"]),
+                               "discon": rng.random() < 0.5, "n": 2, "battery": {"p": "1", "q": "1", "e": "2", "smin": "1/10", "smax": "1", "eta": "1"}}
+            T = F(c["spec"]["ctrl"]["T"]); dt = F(c["dt"])
+            nl = len(c["spec"]["feeders"][0]["parent"])
+            k2 = 1 + math.ceil(T / dt) + rng.randint(1, 3)
+            other = rng.randrange(nl)
+            c["faults"] = {"1": [["F0L0", "6"]], str(k2): [[f"F0L{other}", str(rng.choice([F(1), F(2)]))]]}
+            c["n_inc"] = k2 + int((T + 8) / dt) + 8
+        cases.append(c)
     for _ in range(n_auto):
         c = ctl.gen_scenario(rng, max_lines=5, ctrl="main")
         c["kind"] = "auto"
